@@ -104,3 +104,29 @@ package client
 //@   loop 0:
 //@     modifies buffer.buf, buffer.off, buffer.lastRead
 //@     invariant [buffer-ok] bufOK(buffer)
+//
+// ---- C12: ownership of the request and the response message while one request is processed -------------
+//
+//@ func (*Conn) AcquireMessage(ctx context.Context) (m *pool.Message)
+//@   trusted
+//@   ensures m != nil && fresh(m) && len(m.msg.Options) == 0
+//
+//@ func (*Conn) ReleaseMessage(m *pool.Message)
+//@   trusted
+//
+//@ func (*Conn) Close() (err error)
+//@   trusted
+//
+//@ func (*Conn) RemoteAddr() (a net.Addr)
+//@   trusted
+//
+//@ func (*Conn) ProcessReceivedMessageWithHandler(req *pool.Message, handler HandlerFunc)
+//@   requires cc != nil && req != nil && sortedOpts(req.msg.Options)
+//@   modifies anything
+//@   opaque-calls pure
+//@   ensures [response-acquired-once] callCount(AcquireMessage) == 1
+//@   ensures [handler-once] callCount(handler) == 1 && callArg(handler, 0, 1) == req && callSeq(AcquireMessage, 0) < callSeq(handler, 0)
+//@   ensures [request-released-once-unless-hijacked] callCount(IsHijacked) == 1 && callArg(IsHijacked, 0, 0) == req && callSeq(handler, 0) < callSeq(IsHijacked, 0) && (callRes(IsHijacked, 0, 0) ==> callCount(ReleaseMessage) == 1) && (!callRes(IsHijacked, 0, 0) ==> callCount(ReleaseMessage) == 2 && callArg(ReleaseMessage, 0, 1) == req)
+//@   ensures [response-released-last] callArg(ReleaseMessage, callCount(ReleaseMessage) - 1, 1) == callRes(AcquireMessage, 0, 0) && callSeq(ReleaseMessage, callCount(ReleaseMessage) - 1) == callsTotal() - 1
+//@   ensures [sent-before-release] called(WriteMessage) ==> callArg(WriteMessage, 0, 1) == callRes(AcquireMessage, 0, 0)
+//@   param handler:
